@@ -13,9 +13,13 @@ Record case := {
                                   2 the arp command itself, 3 the icmp command itself: error class, and for
                                   accepted runs the interface the probes left through and the source they
                                   carried, as seen on the virtual wire (vpn = raw IP read from a tun device) *)
-  c_target : option target;    (* None: no destination subnet (targets from a file) *)
+  c_txt : option target_text;  (* what net.ParseCIDR / netip.ParseAddr make of the positional argument (the
+                                  harness calls them itself); None: no argument (targets from a file) *)
+  c_target : option target;    (* what the real ip.ParseIPNet returned for it; None: no argument, or refused *)
+  c_refused : bool;            (* the real ip.ParseIPNet refused the argument *)
   c_ov : overrides;
-  c_err : Z;                   (* 0 none, 1 errSrcInterface, 2 errSrcIP, 3 errSrcMAC, 9 any other error *)
+  c_err : Z;                   (* 0 none, 1 errSrcInterface, 2 errSrcIP, 3 errSrcMAC, 4 ip.ErrInvalidAddr (target
+                                  refused), 9 any other error *)
   c_ifindex : Z;
   c_ifname : string;
   c_srcip : option ip;         (* None = nil SrcIP *)
@@ -28,6 +32,7 @@ Definition err_code (e : error) : Z :=
   | ErrSrcInterface => 1
   | ErrSrcIP => 2
   | ErrSrcMAC => 3
+  | ErrTarget => 4
   | _ => 9
   end.
 
@@ -45,11 +50,33 @@ Definition gw_mac (g : ip) : option ip :=
   | _ => match to4 g with Some g4 => Some (2 :: 0 :: g4) | None => None end
   end.
 
+Definition target_eqb (a b : target) : bool :=
+  bytes_eqb (t_ip a) (t_ip b) && bytes_eqb (t_mask a) (t_mask b).
+
+(* the model of ParseIPNet's decision agrees with the real ParseIPNet on this argument *)
+Definition parse_agrees (c : case) : bool :=
+  match c_txt c with
+  | None => negb (c_refused c) && match c_target c with None => true | Some _ => false end
+  | Some x =>
+      match parse_ipnet x with
+      | Err _ => c_refused c
+      | Ok t => negb (c_refused c) && match c_target c with Some t' => target_eqb t t' | None => false end
+      end
+  end.
+
 (* codes: 1 error class differs; 2 interface differs; 3 source IP differs; 4 source MAC differs;
-   5 vpn flag differs; 6 gateway differs *)
+   5 vpn flag differs; 6 gateway differs; 7 ParseIPNet accepts/refuses/returns something else than
+   the model of it *)
 Definition check_case (c : case) : list Z :=
-  let m := if c_entry c =? 2 then choose_arp (c_cfg c) (c_target c) (c_ov c)
-           else choose (c_cfg c) (c_target c) (c_ov c) in
+  let m := if (c_entry c =? 0) || (c_entry c =? 2) then
+             (if c_entry c =? 2 then run_arp (c_cfg c) (c_txt c) (c_ov c)
+              else (* the hook parses the target first, like the arp command, but has no errSrcMAC test *)
+                match c_txt c with
+                | Some x => match parse_ipnet x with Err e => Err e | Ok t => choose (c_cfg c) (Some t) (c_ov c) end
+                | None => choose (c_cfg c) None (c_ov c)
+                end)
+           else run (c_cfg c) (c_txt c) (c_ov c) in
+  (if parse_agrees c then [] else [7]) ++
   match m with
   | Err e => if err_code e =? c_err c then [] else [1]
   | Ok o =>
